@@ -163,6 +163,62 @@ fn main() {
                 progs.push(analyse(&x, archname));
             }
         }
+        "lifted" => {
+            // prologue/epilogue templates assembled by llvm-mc (corpus/c17/*.hex), lifted by the real translators
+            let dir = fv::arg_str("corpus", "/verif/corpus/c17");
+            let mut files: Vec<String> = std::fs::read_dir(&dir).unwrap()
+                .filter_map(|e| e.ok().map(|e| e.file_name().to_string_lossy().to_string()))
+                .filter(|n| n.ends_with(".hex")).collect();
+            files.sort();
+            for name in files {
+                let archname = name.split('_').next().unwrap().to_string();
+                let text = std::fs::read_to_string(format!("{}/{}", dir, name)).unwrap();
+                let hex = text.trim();
+                let bytes: Vec<u8> = (0..hex.len() / 2).map(|i| u8::from_str_radix(&hex[2 * i..2 * i + 2], 16).unwrap()).collect();
+                let a = arch(&archname);
+                let mut mem = falcon::memory::backing::Memory::new(a.endian());
+                mem.set_memory(0x1000, bytes, falcon::memory::MemoryPermissions::READ | falcon::memory::MemoryPermissions::EXECUTE);
+                let lifted = guard(|| a.translator().translate_function(&mem, 0x1000));
+                let function = match lifted {
+                    fv::Outcome::Ok(f) => f,
+                    _ => { eprintln!("c17: could not lift {}", name); continue; }
+                };
+                // every scalar the lifted IL mentions
+                let mut seen = std::collections::BTreeMap::new();
+                for b in function.blocks() {
+                    for i in b.instructions() {
+                        for s in i.scalars().unwrap_or_default() { seen.insert(s.name().to_string(), s.bits()); }
+                    }
+                }
+                for e in function.edges() {
+                    if let Some(c) = e.condition() { for s in c.scalars() { seen.insert(s.name().to_string(), s.bits()); } }
+                }
+                let sp = a.stack_pointer();
+                seen.insert(sp.name().to_string(), sp.bits());
+                let scalars: Vec<il::Scalar> = seen.iter().map(|(n, w)| il::scalar(n.clone(), *w)).collect();
+                // initial states: 3 sampled valuations (first all zero) x 3 entry stack pointers
+                let w = sp.bits();
+                let top = if w >= 64 { u64::MAX - 0xff } else { (1u64 << w) - 0x100 };
+                let mut inits = Vec::new();
+                for k in 0..3 {
+                    for sp0 in [0x7000u64, 0x8, top] {
+                        let vals: Vec<(il::Scalar, il::Constant)> = scalars.iter().map(|s| {
+                            let c = if s.name() == sp.name() { il::Constant::new_big(BigUint::from(sp0), w) }
+                                    else if k == 0 { il::const_(0, s.bits()) } else { fv::gen::constant(&mut rng, s.bits()) };
+                            (s.clone(), c)
+                        }).collect();
+                        inits.push(json!({"sc": xplor::sc_json(&vals), "mem": []}));
+                    }
+                }
+                let x = XProg {
+                    function, scalars: scalars.clone(), big: matches!(a.endian(), falcon::architecture::Endian::Big), mem_base: 0x7000,
+                    inits, havocs: xplor::havocs(&mut rng, &scalars, 2),
+                };
+                let mut v = analyse(&x, &archname);
+                v["template"] = json!(name);
+                progs.push(v);
+            }
+        }
         "replay" => {
             let v: Value = serde_json::from_str(&std::fs::read_to_string(fv::arg_str("in", "")).unwrap()).unwrap();
             for p in v["progs"].as_array().unwrap() {
